@@ -412,19 +412,15 @@ func (l *InclusiveRanges) AppendUnique(start, end, step int) {
 	last := start
 	pending := 0 // Track unique value count
 
-	// Handle loop test for both increasing
-	// and decreasing ranges
-	var pred func() bool
+	// Handle both increasing and decreasing ranges
 	if start <= end {
 		if step < 0 {
 			step *= -1
 		}
-		pred = func() bool { return subEnd <= end }
 	} else {
 		if step > 0 {
 			step *= -1
 		}
-		pred = func() bool { return subEnd >= end }
 	}
 
 	// Short-circuit if this is the first range being added
@@ -438,7 +434,13 @@ func (l *InclusiveRanges) AppendUnique(start, end, step int) {
 	// 1-100x1 and we are appending 50-150x1. Should be easy
 	// enough to just know we can Append(101,150,1)
 
-	for ; pred(); subEnd += step {
+	// Stop on the last value of the range itself: stepping past
+	// it can overflow, and the loop would then never end
+	stop := NewInclusiveRange(start, end, step).End()
+
+	for done := false; !done; subEnd += step {
+		done = subEnd == stop
+
 		if !l.Contains(subEnd) {
 			// Is a unique value in the range
 			last = subEnd
